@@ -37,6 +37,6 @@ SPEC = dict(
     rule="case = 1-3 consecutive do_all regions (range kind, n, threads, steal, chunk, delay pattern) or an on_each/ThreadPool::run "
          "sequence with changing thread counts; non-trivial iff >=2 threads executed elements (do_all) / >=2 regions with >=2 threads; "
          "distinct by the full region description plus the number of threads that executed elements",
-    require={"invocations": 100000, "stolen_elements": 100, "multi_socket_cases": 10},
+    require={"invocations": 100000, "stolen_elements": 100, "burnpower_sequences": 10, "multi_socket_cases": 10},
     assumptions=["elements carry their own index; the function records the executing thread"],
 )
